@@ -174,7 +174,9 @@ _PRED_ENV = {"abs": abs, "AND": core.AND, "OR": core.OR, "NOT": core.NOT, "True"
 def known_pred(entry, inputs, params):
     env = dict(_PRED_ENV)
     env.update(params)
-    env.update(inputs)
+    env.update({k: v for k, v in inputs.items() if k.isidentifier()})
+    env["inputs"] = inputs
+    env["params"] = params
     return eval(entry.get("when", "True"), {"__builtins__": {}}, env)  # noqa: S307 - committed file
 
 
